@@ -170,12 +170,15 @@ def load_findings():
     if os.path.exists(p):
         with open(p) as f:
             out = json.load(f)["findings"]
-    d = os.path.join(ROOT, "known_findings.d")          # per-property fragments, merged on integration
+    d = os.path.join(ROOT, "known_findings.d")          # per-property working fragments (merged by tools/merge_findings.py)
+    byk = {(f["property"], f["key"]): f for f in out}
     if os.path.isdir(d):
         for fn in sorted(os.listdir(d)):
             if fn.endswith(".json"):
                 with open(os.path.join(d, fn)) as f:
-                    out += json.load(f)["findings"]
+                    for x in json.load(f)["findings"]:
+                        byk[(x["property"], x["key"])] = x
+    out = list(byk.values())
     return out
 
 
